@@ -115,7 +115,7 @@ func facts(n *sim.Node, l sim.Layout) nodeFacts {
 	if db := n.Store.DB("db"); db != nil {
 		f.pos = db.Pos()
 	}
-	im, _ := sim.DiskImage(n.DBDir("db"), l.PageSize)
+	im, _ := sim.StableDiskImage(n.DBDir("db"), l.PageSize)
 	f.image = fmt.Sprintf("%d:%016x", im.N, im.Checksum(l.LockPgno()))
 	ents, _ := os.ReadDir(filepath.Join(n.DBDir("db"), "ltx"))
 	for _, e := range ents {
